@@ -71,8 +71,50 @@ var negInf = math.Inf(-1)
 func max3(a, b, c float64) float64 { return math.Max(a, math.Max(b, c)) }
 
 // gotohGlobal returns the optimal global alignment score under the documented
-// scoring (three-state DP).
+// scoring (three-state DP), keeping two rows per state so that tables of tens
+// of millions of cells stay cheap. gotohGlobalFull is the plain formulation the
+// self-test compares it with.
 func gotohGlobal(a, b []byte, m align.SubstitutionMatrix) float64 {
+	n, l := len(a), len(b)
+	open := mget(m, gapB, gapB)
+	prevM, prevD, prevI := make([]float64, l+1), make([]float64, l+1), make([]float64, l+1)
+	curM, curD, curI := make([]float64, l+1), make([]float64, l+1), make([]float64, l+1)
+	insS := make([]float64, l+1)
+	for j := 1; j <= l; j++ {
+		insS[j] = mget(m, gapB, b[j-1])
+	}
+	for j := range prevM {
+		prevM[j], prevD[j], prevI[j] = negInf, negInf, negInf
+	}
+	prevM[0] = 0
+	for j := 1; j <= l; j++ {
+		if j == 1 {
+			prevI[j] = open + insS[j]
+		} else {
+			prevI[j] = prevI[j-1] + insS[j]
+		}
+	}
+	for i := 1; i <= n; i++ {
+		del := mget(m, a[i-1], gapB)
+		curM[0], curI[0] = negInf, negInf
+		if i == 1 {
+			curD[0] = open + del
+		} else {
+			curD[0] = prevD[0] + del
+		}
+		for j := 1; j <= l; j++ {
+			curM[j] = max3(prevM[j-1], prevD[j-1], prevI[j-1]) + mget(m, a[i-1], b[j-1])
+			curD[j] = max3(prevM[j]+open, prevD[j], prevI[j]+open) + del
+			curI[j] = max3(curM[j-1]+open, curD[j-1]+open, curI[j-1]) + insS[j]
+		}
+		prevM, curM = curM, prevM
+		prevD, curD = curD, prevD
+		prevI, curI = curI, prevI
+	}
+	return max3(prevM[l], prevD[l], prevI[l])
+}
+
+func gotohGlobalFull(a, b []byte, m align.SubstitutionMatrix) float64 {
 	n, l := len(a), len(b)
 	open := mget(m, gapB, gapB)
 	M := make([][]float64, n+1)
@@ -406,6 +448,15 @@ func alignSelfTest() error {
 					}
 				}
 			}
+		}
+	}
+	// The two-row formulation against the plain one on longer strings.
+	for i := 0; i < 40; i++ {
+		al := []byte("acgt")
+		m := genAlignMatrix(r, matSpec{alpha: al, gapOpen: float64(-(i % 4)), gapSign: -(i % 2), sym: i%3 == 0})
+		a, b := randSeq(r, al, r.IntN(40)), randSeq(r, al, r.IntN(40))
+		if g, w := gotohGlobal(a, b, m), gotohGlobalFull(a, b, m); g != w {
+			return fmt.Errorf("gotohGlobal(%q,%q)=%v, full-table formulation %v", a, b, g, w)
 		}
 	}
 	// Edit distance against brute-force alignment enumeration with unit costs.
